@@ -291,7 +291,7 @@ func runPassA(ta *treeA, defs Defs, thr uint32, tipAPI bool) (mis []misAK, ps pa
 	}
 
 	// view 1: ascending heights (breadth first), state then version.
-	v1 := ta.view(defs, thr, 1)
+	v1 := ta.view(defs, thr, 0)
 	for n := 0; n < N; n++ {
 		stateAt(v1, "bfs-ascending", n, true)
 		versionAt(v1, "bfs-ascending", n)
@@ -323,7 +323,7 @@ func runPassA(ta *treeA, defs Defs, thr uint32, tipAPI bool) (mis []misAK, ps pa
 	}
 
 	// view 2: deepest first (descending index).
-	v2 := ta.view(defs, thr, 1)
+	v2 := ta.view(defs, thr, 0)
 	for n := N - 1; n >= 0; n-- {
 		stateAt(v2, "deepest-first", n, false)
 	}
@@ -332,7 +332,7 @@ func runPassA(ta *treeA, defs Defs, thr uint32, tipAPI bool) (mis []misAK, ps pa
 	}
 
 	// view 3: depth-first preorder through the exported API at the tip.
-	v3 := ta.view(defs, thr, 1)
+	v3 := ta.view(defs, thr, 0)
 	for _, n32 := range ta.dfs {
 		n := int(n32)
 		if n == 0 {
